@@ -8,4 +8,7 @@ var Monitors = map[string]func(*core.Run){
 	"C02": RunC02,
 	"C03": RunC03,
 	"C04": RunC04,
+	"C11": RunC11,
+	"C12": RunC12,
+	"C13": RunC13,
 }
